@@ -127,10 +127,8 @@ fn decode_refuses_invalid<const N: usize>() {
     vcover!(!legal);
     vassert!((errs == 0) == well_formed, "ROLE:base38-decode-errors-exactly-on-malformed-input");
     vassert!(errs <= 1 && after_err == 0, "ROLE:base38-decode-stops-at-first-error");
-    if well_formed {
-        let want = (N / 5) * 3 + match tail { 0 => 0, 2 => 1, _ => 2 };
-        vassert!(oks == want, "ROLE:base38-decoded-length");
-    }
+    let want = (N / 5) * 3 + match tail { 0 => 0, 2 => 1, _ => 2 };
+    vassert!(!well_formed || oks == want, "ROLE:base38-decoded-length");
 }
 
 macro_rules! decode_len {
@@ -145,7 +143,7 @@ macro_rules! decode_len {
 }
 decode_len!(c17_q_base38_decode_refuses_invalid_len2, 2);
 decode_len!(c17_q_base38_decode_refuses_invalid_len3, 3);
-decode_len!(c17_q_base38_decode_refuses_invalid_len5, 5);
+decode_len!(c17_t_base38_decode_refuses_invalid_len5, 5);
 decode_len!(c17_t_base38_decode_refuses_invalid_len4, 4);
 decode_len!(c17_t_base38_decode_refuses_invalid_len6, 6);
 decode_len!(c17_t_base38_decode_refuses_invalid_len7, 7);
